@@ -173,18 +173,14 @@ def _get_process_streams_in_each_subzone(
 ) -> Zone:
     """Extracts all stream data into class instances, creates the required subzones and adds these to the parent zone."""
 
+    # Stream zones have been rewritten to fully-qualified paths by
+    # _validate_zone_tree_structure, so a stream belongs to exactly one zone.
     streams_by_full_path = defaultdict(list)
-    streams_by_relative_path = defaultdict(list)
     for stream in streams:
         zone_path = getattr(stream, "zone", None)
         if not zone_path:
             continue
         streams_by_full_path[zone_path].append(stream)
-        path_components = zone_path.split("/")
-        for idx in range(1, len(path_components)):
-            relative_key = "/".join(path_components[idx:])
-            streams_by_relative_path[relative_key].append(stream)
-        streams_by_relative_path[zone_path].append(stream)
 
     def _iter_zones(parent_zone: Zone):
         """Depth-first traversal yielding each zone once."""
@@ -203,7 +199,6 @@ def _get_process_streams_in_each_subzone(
 
     for zone in _iter_zones(master_zone):
         zone_path = _get_zone_path_from_child(zone)
-        relative_zone_path = zone_path.split("/", 1)[1] if "/" in zone_path else zone_path
 
         matched_streams: List[StreamSchema] = []
         seen = set()
@@ -214,11 +209,6 @@ def _get_process_streams_in_each_subzone(
                 matched_streams.append(candidate)
                 seen.add(candidate_id)
 
-        for candidate in streams_by_relative_path.get(relative_zone_path, ()):
-            candidate_id = id(candidate)
-            if candidate_id not in seen:
-                matched_streams.append(candidate)
-                seen.add(candidate_id)
 
         if not matched_streams:
             continue
